@@ -122,7 +122,7 @@ package openapi
 //@   ensures imp(result1 == nil, 0 <= result0.off)
 // every property of the object becomes one parameterInfo - none is skipped, whatever its name (C17-7 dropped "accept",
 // "content-type" and "authorization", also when they are {parameters} of a path)
-//@ extern (github.com/jsightapi/jsight-schema-core/openapi.ObjectInformer).PropertiesInfos(i)
+//@ extern (github.com/jsightapi/jsight-api-core/catalog/ser/openapi.schemaObjectInfo).PropertiesInfos(i)
 //@   attr pure deterministic nopanic
 //@   ensures 0 <= result.off
 //@ extern (github.com/jsightapi/jsight-schema-core/openapi.PropertyInformer).Key(i)
